@@ -14,6 +14,7 @@ from .. import runspace
 from ..common import Check
 
 LEVEL = "model_checking"
+RULE = ('cases = ProgramSpace.tla run vectors (program x layout x manifest x queue x dry-run x workers) executed through the CLI; non-trivial when the run reports at least one changeset; distinct = distinct vectors')
 
 CLAUSES = (
     "FileEnd:diff-does-not-apply", "FileEnd:changeset-without-change", "FileEnd:new-version-without-changeset",
